@@ -303,6 +303,17 @@ def _scenario(s, clients, w, sim, r, run, stats, wit):
                     submit(j, m)(sm)
                 else:
                     sm.call_at(sm.now + m["when"], submit(j, m))
+            # an ICMP "port unreachable" reaches the client's socket while the handshake runs (the
+            # server's port was closed for an instant, a router hiccup): libcoap tells the
+            # application and carries on - what is queued is still delivered, or NACKed
+            if not stream and r.random() < 0.25:
+                when = r.choice([1, 3, 8, 20, 60, 250])
+                addr = S["addr"]
+                stats["icmp_during_handshake"] = stats.get("icmp_during_handshake", 0) + 1
+                inj.append({"from": SRV, "to": addr, "icmp": 1, "tok": "-", "spoof": 1, "when": when,
+                            "sess": j})
+                sm.call_at(sm.now + when, lambda s2, addr=addr: s2.cmd(
+                    "deliver %s %s - icmp=1" % (SRV, addr)) if not sess[j].get("released") else None)
             # cleartext injections around this session
             if not stream and r.random() < 0.7:
                 for k in range(r.choice([1, 2, 4])):
@@ -441,7 +452,10 @@ def _scenario(s, clients, w, sim, r, run, stats, wit):
         mytoks = set(m["tok"] for m in S["msgs"])
         reqs = [e for e in all_reqs if e["tok"] in mytoks]
         rsps = [e for e in log if e["e"] == "rsp" and e.get("n") == 0 and e.get("sess") == j]
+        # (COAP_NACK_ICMP_ISSUE, reason 4, is a notice - the message stays queued or in flight
+        # and gets its outcome later -, not an outcome: DESIGN 7.1)
         nacks = [e for e in log if e["e"] == "nack" and e.get("n") == 0 and e.get("sess") == j
+                 and e.get("reason") != 4
                  and "tok" in e]
         established = any(st == ESTABLISHED for st in S["states"])
         stats["%s/%s" % (s.proto, v)] = stats.get("%s/%s" % (s.proto, v), 0) + 1
